@@ -140,7 +140,8 @@ def generate(seed, tier):
         # a field wider than any buffer between the file and the reader
         widths[swarm.randrange(len(widths))] = swarm.choice([8191, 8193, 9000, 20000])
     setting = swarm.choice(sorted(SETTINGS))
-    alphabet = swarm.choice([["a", "b"], ["a", "b", " "], ["a", "b", "\r", "\n"], ["a", " ", "\r", "\n", "ü"], ["a", "ü"]])
+    alphabet = swarm.choice([["a", "b"], ["a", "b", " "], ["a", "b", "\r", "\n"], ["a", " ", "\r", "\n", "ü"], ["a", "ü"],
+                             ["a", "\x1a", "\x00", "\x0c"]])  # control characters are characters
     kind = swarm.choice(["well-formed", "well-formed", "mutated", "mutated", "random"])
     if kind == "random":
         text = "".join(rng.choice(["a", "b", "\r", "\n"]) for _ in range(rng.randint(0, 12)))
